@@ -306,7 +306,7 @@ var c20Pools = map[string][]string{
 		"2036-01-02T15:04:05.999999999Z", "2036-01-02T15:04:05+23:59", "2036-01-02", "Mon, 02 Jan 2006 15:04:05 GMT", "Mon, 02 Jan 2036 15:04:05 GMT", "Mon, 32 Jan 2006 15:04:05 GMT", "20060102T150405Z", "20360102T150405Z", "99999999T999999Z",
 		"20060102T150405", "20060102", "2006", "T", "20060102T150405.5Z", "20060102T150405,5Z", "２００６0102T150405Z", c20Long},
 	"b64":   {"", "x", "AAAA", "AAAAAA==", "AAAAAAA=", "1B2M2Y8AsgTpgAmY7PhCfg==", "1B2M2Y8AsgTpgAmY7PhCfg", "====", "%%%%", "AAAAAAAAAAAAAAAAAAAAAAAAAAA=", "47DEQpj8HBSa+/TImW+5JCeuQeRkm5NMpJWZG3hSuFU=", c20Long},
-	"tagq":  {"", "a", "a=", "=b", "a=b", "a=b&a=c", "&", "&&", "=", "a=b&", "a==b", "a=b=c", "%", "%zz=1", "a=%zz", "a=b;c=d", strings.Repeat("k=v&", 60), c20Long + "=v", "k=" + c20Long, "\x00=\x00", "é=é"},
+	"tagq":  {"", "a", "a=", "=b", "a=b", "a=b&a=c", "&", "&&", "=", "a=b&", "a==b", "a=b=c", "%", "%zz=1", "a=%zz", "a=b;c=d", "t2=a%20b", "a+b=c+d", "k=%2", "k%3D=v%26", "k=%00", "k=%ff%fe", strings.Repeat("k=v&", 60), c20Long + "=v", "k=" + c20Long, "\x00=\x00", "é=é"},
 	"grant": {"", "id=", "id={user}", "{user}", "{user},{user}", ",", ",,", "{user},", "nosuchuser", "id=\"{user}\"", "emailAddress=a@b", "uri=http://acs.amazonaws.com/groups/global/AllUsers", c20Long},
 	"sha": {"", "UNSIGNED-PAYLOAD", "STREAMING-AWS4-HMAC-SHA256-PAYLOAD", "STREAMING-AWS4-HMAC-SHA256-PAYLOAD-TRAILER", "STREAMING-UNSIGNED-PAYLOAD-TRAILER", "STREAMING-AWS4-ECDSA-P256-SHA256-PAYLOAD", "STREAMING-AWS4-ECDSA-P256-SHA256-PAYLOAD-TRAILER",
 		"e3b0c44298fc1c149afbf4c8996fb92427ae41e4649b934ca495991b7852b855", "E3B0C44298FC1C149AFBF4C8996FB92427AE41E4649B934CA495991B7852B855", "e3b0", "zz", "STREAMING-", "unsigned-payload", c20Long},
@@ -857,7 +857,7 @@ var c20CorePools = map[string][]string{
 	"copysrc": {"", "/", "fzb", "fzb/", "fzb/o1?versionId=", "?versionId=x", "%zz", "fzb/nokey", "fzv/v1?versionId={vid}x"},
 	"date":    {"", "0", "20060102T150405Z", "2036-01-02T15:04:05Z", "Mon, 32 Jan 2006 15:04:05 GMT", "99999999T999999Z"},
 	"b64":     {"", "x", "AAAAAA==", "===="},
-	"tagq":    {"", "a", "a=b=c", "&", "%zz=1"},
+	"tagq":    {"", "a", "a=b=c", "&", "%zz=1", "t2=a%20b", "k=%2"},
 	"grant":   {"", "id=", ",", "nosuchuser"},
 	"enum":    {"", "x", "ON", "GOVERNANCE", "REPLACE", "CRC32", "COMPOSITE", "\x00"},
 	"attrs":   {"", ",", "Bogus"},
